@@ -94,10 +94,17 @@ class HTMLEntity(Node):
     @value.setter
     def value(self, newval):
         newval = str(newval)
+        if not (newval.isascii() and newval.isalnum()):
+            # int() would also take " 12", "+5", "1_0", "0x10" or other digits
+            raise ValueError(
+                "entity value {!r} is not a valid name or code point".format(newval)
+            )
         try:
             int(newval)
         except ValueError:
             try:
+                if newval[:2].lower() == "0x":
+                    raise ValueError(newval)  # int() would skip this prefix
                 intval = int(newval, 16)
             except ValueError:
                 if newval not in htmlentities.entitydefs:
